@@ -4,6 +4,7 @@ def b_LineMarking_create_node : CR.SrcW.Builder where
   kind := .node
   tag := "lineMarking"
   xsd := "lineMarking"
+  path := []
   parent := ""
   attrs := []
   gattrs := []
